@@ -154,3 +154,38 @@ PROPS["C18"] = {
     "thorough": [{"variant": "default", "cases": 800000, "timeout": 3000}, {"variant": "checks", "cases": 100000, "timeout": 3000}],
     "floors": {"any": {"term_roundtrips": 10000, "pattern_roundtrips": 10000, "subst_patterns": 1000, "multipattern_roundtrips": 5000, "arbitrary_texts": 100000, "arbitrary_accepted": 5000}},
 }
+
+_META_HIST = ("generated add/union histories over LSym (2-6 terms, 1-5 unions, families as in C01 incl. symmetric-user and self-reference)")
+PROPS["C11"] = {
+    "rule": "cases: " + _META_HIST + ", half of them with 1-2 rewrite iterations of a random rule subset; run once with neutral slot names in a fresh thread and once "
+            "with a renaming drawn from: numeric ascending/descending, fresh-like f<n> (low and above the counter), textual names interned in shuffled order, a mixed alphabet, permuted names; "
+            "bound names renamed too. Compared: all equality answers over all relative namings, live classes, multiset of (slot count, symmetry count) per live class, per-term slot count / "
+            "symmetry count / slot names (returned invocations are the originals renamed), AstSize cost of the term extracted per handle, node count. A panic that occurs only under the "
+            "renaming is a violation. Non-trivial = distinct (naming, history) pair.",
+    "assumptions": ["observable answers are compared; internal ids and fresh-name numbering are not"],
+    "quick": [{"variant": "default", "cases": 2500, "timeout": 600}],
+    "thorough": [{"variant": "default", "cases": 300000, "timeout": 3000}, {"variant": "explanations", "cases": 20000, "timeout": 3000}],
+    "floors": {"any": {"histories_compared": 1500, "histories_with_rewriting": 300, "naming_numeric_desc": 50, "naming_fresh_like": 50, "naming_textual_rev": 50}},
+}
+PROPS["C12"] = {
+    "rule": "cases: " + _META_HIST + "; the same operations are executed in the generated order and in 4 (quick) / 8 (thorough) random permutations with random orientation flips of every "
+            "union, plus the fully reversed order and the all-flipped orientation. Compared: equality answers over all inserted terms and relative namings, live classes, per-term slot count, "
+            "symmetry count and slot names. Non-trivial = distinct history with >= 2 unions.",
+    "assumptions": ["a union that refers to a term not inserted yet inserts it first (so every order is executable)"],
+    "quick": [{"variant": "default", "cases": 2500, "params": {"orders": 4}, "timeout": 600}],
+    "thorough": [{"variant": "default", "cases": 250000, "params": {"orders": 8}, "timeout": 3000}, {"variant": "checks", "cases": 30000, "params": {"orders": 4}, "timeout": 3000}],
+    "floors": {"any": {"histories_compared": 1500, "orders_compared": 8000}},
+}
+PROPS["C13"] = {
+    "rule": "cases: one long history of 30-120 (quick) / 40-300 (thorough) public calls (insertions incl. permuted copies, unions of arbitrary earlier handles, rewrite iterations); a recorder keeps "
+            "every returned invocation, its slot set, and every pair observed equal (all asserted pairs + a sample). After every call: progress moves only in its documented lexicographic "
+            "direction, every old handle canonicalises to a live class, its slot set only shrinks, a sliding sample of recorded equalities still holds (all of them at the end), and every "
+            "10 calls a term is extracted from every old handle and looked up again. Non-trivial = distinct history with >= 3 recorded equal pairs.",
+    "assumptions": ["four-slot leaves are left out of these long histories (the crate's shape computation is exponential in the children's group sizes and only yields watchdog timeouts)"],
+    "quick": [{"variant": "default", "cases": 1200, "params": {"case_timeout": 30}, "timeout": 900}],
+    "thorough": [{"variant": "default", "cases": 60000, "params": {"len_lo": 40, "len_hi": 300, "case_timeout": 60}, "timeout": 3400}, {"variant": "checks", "cases": 4000, "params": {"case_timeout": 120}, "timeout": 3400}],
+    "floors": {"any": {"histories_completed": 800, "equal_pairs_recorded": 100000, "progress_checks": 50000, "extractions_from_old_handles": 50000}},
+}
+PROPS["C17"]["quick"].append({"variant": "default", "cases": 1200, "params": {"lazy": 1}, "worker_prop": "C11", "timeout": 600})
+PROPS["C17"]["thorough"].append({"variant": "default", "cases": 100000, "params": {"lazy": 1}, "worker_prop": "C11", "timeout": 3000})
+PROPS["C17"]["floors"]["any"].update({"naming_lazy_fresh_like": 200, "naming_lazy_numeric": 200})
